@@ -64,10 +64,10 @@ MsQuickConfigs ==
    [fam |-> "strand", alpha |-> {"a", "c", "g", "t"}, lo |-> 0, n |-> 4,  opts |-> MsStrandOptsQuick],
    [fam |-> "wide",   alpha |-> {"a", "c"},           lo |-> 10, n |-> 10, opts |-> {MsOpt(2, 5, 2, 0, 0, TRUE)}]}
 MsThoroughConfigs ==
-  {[fam |-> "scan",   alpha |-> {"a", "c"},           lo |-> 0, n |-> 11, opts |-> MsScanOpts],
-   [fam |-> "break",  alpha |-> {"a", "c", "n"},      lo |-> 4, n |-> 8,  opts |-> MsScanOptsSmall],
-   [fam |-> "strand", alpha |-> {"a", "c", "g", "t"}, lo |-> 0, n |-> 6,  opts |-> MsStrandOpts],
-   [fam |-> "wide",   alpha |-> {"a", "c"},           lo |-> 12, n |-> 13, opts |-> MsWideOpts]}
+  {[fam |-> "scan",   alpha |-> {"a", "c"},           lo |-> 0, n |-> 10, opts |-> MsScanOpts],
+   [fam |-> "break",  alpha |-> {"a", "c", "n"},      lo |-> 4, n |-> 7,  opts |-> MsScanOptsSmall],
+   [fam |-> "strand", alpha |-> {"a", "c", "g", "t"}, lo |-> 0, n |-> 5,  opts |-> MsStrandOpts],
+   [fam |-> "wide",   alpha |-> {"a", "c"},           lo |-> 12, n |-> 12, opts |-> MsWideOpts]}
 
 MsSeqs(S, lo, n) == UNION {[1..k -> S] : k \in lo..n}
 
